@@ -433,3 +433,219 @@ def ddmin(data, still_fails, max_tests=400):
         bs = run([bytes([b]) for b in data], lambda u: b"".join(u))
         data = b"".join(bs)
     return data
+
+
+# ------------------------------------------------ feature documents --------
+# Small documents that each go through one import path the random families rarely reach (v2 compatibility
+# conversions, sub-element variants, every documented error branch), with what the loaded topology must show.
+# -> list of dicts: name, kind, data, backends, method, tflags, opts, expect (regexes over the harness output),
+#    loads (True: must load, False: must be refused, None: either)
+V = 32    # HWLOC_XML_VERBOSE
+SHOW = 64  # HWLOC_HIDE_ERRORS=0
+
+
+def _doc(ver, rootextra, children, tail="", rootattrs=None):
+    v3 = ver.startswith("3")
+    o = lambda *a, **k: _obj(*a, v3=False, **k)
+    base = o("NUMANode", 0, "0x3", "0x1", 2, 'local_memory="1024"') + o("PU", 0, "0x1", "0x1", 3) + o("PU", 1, "0x2", "0x1", 4)
+    root = o("Machine", 0, "0x3", "0x1", 1, rootattrs or "", root=True, body=rootextra + base + children)
+    return HDR + ('<topology version="%s">\n' % ver).encode() + (root + tail).encode() + b"</topology>\n"
+
+
+def feature_docs():
+    F = []
+
+    def add(name, data, expect=(), loads=True, backends=(0, 1), opts=4, kind="topo", method="buf", tflags=0):
+        F.append(dict(name=name, kind=kind, data=data if isinstance(data, bytes) else data.encode(), backends=backends, method=method,
+                      tflags=tflags, opts=opts, expect=list(expect), loads=loads))
+
+    osd = lambda gp, ty, name="dev", sub=None, infos="": '<object type="OSDev" gp_index="%d" name="%s"%s osdev_type="%s"%s\n' % (
+        gp, name, ' subtype="%s"' % sub if sub else "", ty, ("/>" if not infos else ">" + infos + "</object>"))
+    inf = lambda n, v: '<info name="%s" value="%s"/>' % (n, v)
+    # --- v2 OS device types -> v3 bit masks, and the Backend infos added to the topology
+    v2dev = [("0", "sda", None, "", 1), ("0", "dax0.0", None, "", 2), ("0", "dax1.0", "NVM", "", 3), ("0", "mem0", "CXLMem", "", 2),
+             ("0", "mem1", "CXLMem", inf("CXLPMEMSize", "1024"), 3), ("1", "card0", None, "", 4), ("1", "rsmi0", None, inf("Backend", "RSMI"), 12),
+             ("1", "nvml0", None, inf("Backend", "NVML"), 12), ("2", "eth0", None, "", 16), ("3", "mlx5_0", None, "", 48), ("3", "bxi0", "BXI", "", 16),
+             ("4", "dma0", None, "", 64), ("5", "ve0", None, "", 8), ("5", "cuda0", "CUDA", inf("Backend", "CUDA"), 12),
+             ("5", "ze0", "LevelZero", inf("Backend", "LevelZero"), 12), ("5", "opencl0d0", "OpenCL", inf("Backend", "OpenCL") + inf("OpenCLDeviceType", "GPU"), 12),
+             ("5", "opencl0d1", "OpenCL", inf("OpenCLDeviceType", "CPU"), 8), ("6", "weird", None, "", 0), ("1", ":0.0", "Display", inf("Backend", "GL"), 4)]
+    kids = "".join(osd(100 + i, ty, nm, sub, infos) for i, (ty, nm, sub, infos, _) in enumerate(v2dev))
+    exp = [r'ty=18 [^\n]* at=ostypes:%d nm="%s"' % (bits, re.escape(nm).replace(":", "%3a").replace("\\%3a", "%3a")) for (_, nm, _, _, bits) in v2dev if ":" not in nm]
+    exp += [r'tinfos \d+[^\n]*"Backend"="%s"' % b for b in ("RSMI", "NVML", "CUDA", "LevelZero", "OpenCL", "GL")]
+    add("v2-osdev-types", _doc("2.0", "", kids), exp)
+    # the root already names some backends: not added twice
+    add("v2-osdev-backends-present", _doc("2.0", "".join(inf("Backend", b) for b in ("CUDA", "NVML", "RSMI", "LevelZero", "OpenCL", "GL", "Linux")), kids),
+        [r'tinfos 7 '])
+    # v2 root infos that move to the topology, the others stay on the root; Size infos get a KiB suffix
+    rootinfos = "".join(inf(n, "x") for n in ("Backend", "SyntheticDescription", "LinuxCgroup", "MemoryTiersNr", "WindowsBuildEnvironment", "OSName", "OSRelease",
+                                             "OSVersion", "HostName", "Architecture", "hwlocVersion", "ProcessName", "Custom"))
+    sizes = osd(200, "0", "sdb", None, inf("Size", "1024") + inf("SectorSize", "512") + inf("LevelZeroHBMSize", "77KiB")) + \
+        '<object type="Misc" gp_index="201" name="dimm" subtype="MemoryModule">' + inf("Size", "2048") + inf("Other", "1") + "</object>\n"
+    add("v2-root-infos-and-sizes", _doc("2.0", rootinfos, sizes),
+        [r'tinfos 12 ', r'O 0 [^\n]*inf="Custom"="x" ', r'"Size"="1024KiB";"SectorSize"="512";"LevelZeroHBMSize"="77KiB"', r'"Size"="2048KiB";"Other"="1"'])
+    add("v3-infos-unchanged", _doc("3.0", inf("OSName", "x"), sizes.replace('osdev_type="0"', 'osdev_type="1"')),
+        [r'tinfos 0', r'O 0 [^\n]*inf="OSName"="x" ', r'"Size"="1024";"SectorSize"'])
+    # --- Group -> Die, future type names
+    grp = lambda extra: '<object type="Group" cpuset="0x3" complete_cpuset="0x3" nodeset="0x1" complete_nodeset="0x1" gp_index="50" %s>' % extra
+    pus = _obj("PU", 0, "0x1", "0x1", 3, v3=False) + _obj("PU", 1, "0x2", "0x1", 4, v3=False)
+    numa = _obj("NUMANode", 0, "0x3", "0x1", 2, 'local_memory="1024"', v3=False)
+    mach = lambda body, extra="": HDR + b'<topology version="2.0">\n' + _obj("Machine", 0, "0x3", "0x1", 1, extra, root=True, body=body, v3=False).encode() + b"</topology>\n"
+    add("group-kind-die", mach(numa + grp('kind="104" subkind="0"') + pus + "</object>\n"), [r"\nO \d+ ty=2 "])
+    add("group-subtype-die", mach(numa + grp('kind="0" subkind="0" subtype="Die"') + pus + "</object>\n"), [r"\nO \d+ ty=2 "])
+    for fut, k in (("Tile", 102), ("Module", 103), ("Cluster", 201), ("tile", 102)):
+        add("future-type-" + fut, mach(numa + grp("").replace('type="Group"', 'type="%s"' % fut) + pus + "</object>\n"), opts=4 | V)   # (the Group itself is merged away by the core: same set as its parent)
+    # --- attribute order / repetition / unknown attributes, with diagnostics on
+    # (accepted: the "type needed first" test compares with TYPE_NONE but new objects start as TYPE_MAX; attributes before type are judged against no type)
+    add("attr-before-type", mach(numa + pus.replace('<object type="PU" os_index="0"', '<object os_index="0" cache_size="1" depth="2" kind="3" local_memory="4" type="PU"', 1)), loads=None, opts=4 | V)
+    add("object-without-type", mach(numa + pus + '<object os_index="0" name="x"/>'), loads=False, opts=4 | V)
+    add("object-without-type-with-sets", mach(numa + pus + '<object os_index="0" cpuset="0x1" complete_cpuset="0x1" nodeset="0x1" complete_nodeset="0x1"/>'), loads=None, opts=4 | V)   # (silently dropped: the type filter lookup refuses the sentinel type)
+    add("name-subtype-twice", mach(numa + pus, 'name="a" name="b" subtype="c" subtype="d" bogus="1" numanode_type="x"'), [r'O 0 [^\n]* nm="b" st="d"'], backends=(0,), opts=4 | V)
+    add("numanode-type-attr", mach(numa.replace("local_memory", 'numanode_type="0" local_memory') + pus), opts=4 | V)
+    allattrs = ('cache_size="1" cache_linesize="2" cache_associativity="3" cache_type="1" local_memory="5" depth="1" kind="1" subkind="2" dont_merge="1" '
+                'pci_busid="0000:00:01.0" pci_type="0300 [10de:1234] [0000:0000] a1 00" pci_link_speed="1.5" bridge_type="0-1" bridge_pci="0000:[01-02]" osdev_type="1" numanode_type="0" id="zzz" gp_index="0"')
+    badattrs = ('cache_type="7" pci_busid="zz" pci_type="zz" bridge_type="zz" bridge_pci="zz" osdev_type="zz" id="obj0" allowed_cpuset="0x1" allowed_nodeset="0x1"')
+    for ty, sets in (("Package", True), ("Group", True), ("L2Cache", True), ("MemCache", True), ("NUMANode", True), ("PU", True), ("Bridge", False), ("PCIDev", False), ("OSDev", False), ("Misc", False)):
+        for tag, extra in (("all", allattrs), ("bad", badattrs)):
+            if sets and ty == "PU":
+                child = '<object type="PU" os_index="0" cpuset="0x1" complete_cpuset="0x1" nodeset="0x1" complete_nodeset="0x1" %s/>\n' % extra + _obj("PU", 1, "0x2", "0x1", 4, v3=False)
+                doc = mach(numa + child)
+            elif sets and ty in ("NUMANode", "MemCache"):
+                child = '<object type="%s" os_index="0" cpuset="0x3" complete_cpuset="0x3" nodeset="0x1" complete_nodeset="0x1" %s>%s</object>\n' % (ty, extra, numa if ty == "MemCache" else "")
+                doc = mach(child + pus)
+            elif sets:
+                child = '<object type="%s" cpuset="0x3" complete_cpuset="0x3" nodeset="0x1" complete_nodeset="0x1" %s>%s</object>\n' % (ty, extra, pus)
+                doc = mach(numa + child)
+            else:
+                doc = mach(numa + pus + '<object type="%s" %s/>\n' % (ty, extra))
+            add("attrs-%s-on-%s" % (tag, ty), doc, loads=None, backends=(0,) if tag == "bad" else (0, 1), opts=4 | V)
+    # --- sub-elements
+    add("pagetype-info-attr", mach(numa.replace("/>", '><page_type size="4096" count="1" info="x"/><page_type size="0" count="3"/></object>') + pus), loads=None, opts=4 | V)
+    add("pagetype-bogus-attr", mach(numa.replace("/>", '><page_type size="4096" bogus="1"/></object>') + pus), loads=False, opts=4 | V)
+    add("pagetype-on-root-and-package", mach('<page_type size="4096" count="7"/>' + numa + grp("").replace("Group", "Package") + '<page_type size="4096" count="1"/>' + pus + "</object>\n"), loads=False, opts=4 | V)
+    add("pagetype-on-root", mach('<page_type size="4096" count="7"/>' + numa + pus), opts=4 | V)
+    for i, ud in enumerate(('<userdata length="4" encoding="base64">!!!!====</userdata>', '<userdata length="4" encoding="base64">YWJj</userdata>',
+                            '<userdata length="3" encoding="base64">YWJj</userdata>', '<userdata name="n" length="2">abc</userdata>', '<userdata bogus="1" length="0"/>',
+                            '<userdata length="0" encoding="base64"></userdata>', '<userdata name="x" length="5" encoding="normal">a&amp;b</userdata>')):
+        for o_ in (4, 5, 6):
+            add("userdata-%d-ud%d" % (i, o_ & 3), mach(ud + numa + pus), loads=None, backends=(0,) if o_ != 5 else (0, 1), opts=o_ | V)
+    add("type-twice-verbose", mach(numa + pus + '<object type="Misc" type="Misc"/>'), loads=False, backends=(0,), opts=4 | V)
+    add("root-ignored-verbose", HDR + b'<topology version="3.0"><object type="Bridge" bridge_type="0-1" pci_busid="zz" depth="0"/></topology>', loads=False, opts=4 | V)
+    add("normal-under-valid-pu", mach(numa + '<object type="PU" os_index="0" cpuset="0x1" complete_cpuset="0x1" nodeset="0x1" complete_nodeset="0x1">' + _obj("Core", 0, "0x1", "0x1", 9, v3=False) + "</object>\n" + _obj("PU", 1, "0x2", "0x1", 4, v3=False)), loads=False, opts=4 | V)
+    add("pagetype-info-then-bogus", mach(numa.replace("/>", '><page_type info="x" bogus="1"/></object>') + pus), loads=False, opts=4 | V)
+    add("junk-after-second-child", mach(numa + pus + "junk"), loads=None, backends=(0,), opts=4 | V)
+    for nm, junk in (("text", b"some text"), ("pi", b"<?pi x?>"), ("cdata", b"<![CDATA[cdata]]>"), ("comment", b"<!-- c -->")):
+        add("libxml-" + nm + "-between-objects", _doc("3.0", "", "").replace(b'<object type="PU"', junk + b'<object type="PU"', 1), loads=None, backends=(1,), opts=4 | V)
+    add("unknown-subnode", mach("<bogus/>" + numa + pus), loads=False, opts=4 | V)
+    add("unknown-subnode-after-children", mach(numa + pus + "<info name=\"a\" value=\"b\"/>"), loads=False, opts=4 | V)
+    add("machine-as-child", mach(numa + pus + _obj("Machine", 1, "0x3", "0x1", 60, v3=False)), loads=False, opts=4 | V)
+    add("junk-between-children", mach(numa + pus).replace(b"</object>\n</topology>", b"x</object>\n</topology>"), loads=None, opts=4 | V)
+    add("child-fails-under-filtered-parent", mach(numa + pus + '<object type="Bridge" gp_index="70" bridge_type="0-1" depth="0" bridge_pci="0000:[01-01]"><object type="Frobnicator"/></object>\n'), loads=False, opts=0 | V)
+    add("normal-under-pu", mach(numa + '<object type="PU" os_index="0" cpuset="0x3" complete_cpuset="0x3" nodeset="0x1" complete_nodeset="0x1">' + _obj("Core", 0, "0x3", "0x1", 9, v3=False) + "</object>\n"), loads=False, opts=4 | V)
+    for par, ch in (("Misc", "PU"), ("PCIDev", "NUMANode"), ("Misc", "NUMANode"), ("NUMANode", "PCIDev"), ("Misc", "OSDev"), ("NUMANode", "PU")):
+        psets = ' cpuset="0x3" complete_cpuset="0x3" nodeset="0x1" complete_nodeset="0x1" os_index="7"' if par == "NUMANode" else ""
+        csets = ' cpuset="0x1" complete_cpuset="0x1" nodeset="0x1" complete_nodeset="0x1" os_index="0"' if ch in ("PU", "NUMANode") else ""
+        add("child-kind-%s-under-%s" % (ch, par), mach(numa + pus + '<object type="%s"%s><object type="%s"%s/></object>\n' % (par, psets, ch, csets)), loads=False, opts=4 | V)
+    add("cache-attrs-vs-type", mach(numa + '<object type="L2Cache" cpuset="0x3" complete_cpuset="0x3" nodeset="0x1" complete_nodeset="0x1" depth="3" cache_type="0">' + pus + "</object>\n"), loads=False, opts=4 | V)
+    add("pu-bad-cpuset", mach(numa + pus.replace('cpuset="0x2"', 'cpuset="0x6"', 1)), loads=False, opts=4 | V)
+    add("numa-bad-nodeset", mach(numa.replace('nodeset="0x1"', 'nodeset="0x3"', 1) + pus), loads=False, opts=4 | V)
+    add("special-with-sets", mach(numa + pus + '<object type="Misc" cpuset="0x1"/>'), loads=False, opts=4 | V)
+    add("normal-without-sets", mach(numa + pus + '<object type="Core" os_index="3"/>'), loads=False, opts=4 | V)
+    add("root-special-no-sets", HDR + b'<topology version="2.0"><object type="Misc"/></topology>', loads=False, opts=4 | V)
+    add("root-empty-nodeset", mach(pus).replace(b'nodeset="0x1"', b'nodeset="0x0"'), loads=False, opts=4 | V)
+    add("unknown-type", mach(numa + pus + '<object type="Frobnicator"/>'), loads=False, opts=4 | V)
+    add("out-of-order-children", mach(numa + _obj("PU", 1, "0x2", "0x1", 4, v3=False) + _obj("PU", 0, "0x1", "0x1", 3, v3=False)), [r"nch=\d+,\d+ "], opts=4 | SHOW)
+    add("out-of-order-children-named", mach(inf("hwlocVersion", "1.2.3") + inf("ProcessName", "p") + numa + _obj("PU", 1, "0x2", "0x1", 4, v3=False) + _obj("PU", 0, "0x1", "0x1", 3, v3=False)), opts=4 | SHOW, backends=(0,))
+    for ver in ("0.9", "1.0", "1.11", "4.0", "2.7", "3.9"):
+        add("version-" + ver, mach(numa + pus).replace(b'version="2.0"', ('version="%s"' % ver).encode()), loads=ver[0] in "23", opts=4 | V)
+    add("root-tag-root", (HDR + b"<root>" + mach(numa + pus).split(b'<topology version="2.0">\n')[1].replace(b"</topology>", b"</root>")), loads=False, opts=4 | V)
+    add("root-tag-topology-v1", mach(numa + pus).replace(b'<topology version="2.0">', b"<topology>"), loads=False, opts=4 | V)
+    add("root-tag-other", mach(numa + pus).replace(b'<topology version="2.0">', b"<foo>").replace(b"</topology>", b"</foo>"), loads=False, opts=4 | V)
+    add("unknown-tag-after-root", _doc("3.0", "", "", "<bogus/>\n" + '<cpukind cpuset="0x1"/>'), [r"cpukinds nr=0"], opts=4 | V)
+    # --- support
+    add("support-values", _doc("3.0", "", "", '<support name="discovery.pu" value="0"/><support name="cpubind.set_thisproc_cpubind" value="1"/><support name="membind.migrate_membind"/><support name="custom.exported_support"/><support name="bogus.x"/><support bogus="1" name="discovery.numa"/><support value="3"/>'), tflags=8, opts=4 | V)
+    # --- distances
+    c = lambda tag, txt, ln=None: '<%s length="%d">%s</%s>' % (tag, len(txt) if ln is None else ln, txt, tag)
+    d2 = lambda attrs, body: "<distances2 %s>%s</distances2>\n" % (attrs, body)
+    okbody = c("indexes", "0 1 ") + c("u64values", "10 20 20 10 ")
+    add("v2-xgmihops-latency", _doc("2.0", "", "", d2('type="PU" nbobjs="2" kind="5" indexing="os" name="XGMIHops"', okbody)), [r"distances 0 nbobjs=2 kind=33 "])
+    add("v3-xgmihops-unchanged", _doc("3.0", "", "", d2('type="PU" nbobjs="2" kind="5" indexing="os" name="XGMIHops"', okbody)), [r"distances 0 nbobjs=2 kind=5 "])
+    add("distances-no-distances-flag", _doc("3.0", "", "", d2('type="PU" nbobjs="2" kind="5" indexing="os" name="L"', okbody)), [r"phase distances\nphase memattrs"], tflags=128)
+    bad = [("type-unknown", 'type="Frob" nbobjs="2" kind="5" indexing="os"', okbody, False), ("missing-kind", 'type="PU" nbobjs="2" indexing="os"', okbody, None),
+           ("missing-indexing", 'type="PU" nbobjs="2" kind="5"', okbody, False), ("missing-type", 'nbobjs="2" kind="5" indexing="os"', okbody, False),
+           ("nbobjs-0", 'type="PU" nbobjs="0" kind="5" indexing="os"', okbody, False), ("nbobjs-1", 'type="PU" nbobjs="1" kind="5" indexing="os"', c("indexes", "0 ") + c("u64values", "10 "), True),
+           ("nbobjs-huge", 'type="PU" nbobjs="4294967295" kind="5" indexing="os"', okbody, False), ("info-child", 'type="PU" nbobjs="2" kind="5" indexing="os" name="x"', '<info name="a" value="b"/>' + okbody, None),
+           ("unknown-child", 'type="PU" nbobjs="2" kind="5" indexing="os"', "<bogus/>" + okbody, False), ("child-without-length", 'type="PU" nbobjs="2" kind="5" indexing="os"', '<indexes bogus="4">0 1 </indexes>', False),
+           ("length-mismatch", 'type="PU" nbobjs="2" kind="5" indexing="os"', c("indexes", "0 1 ", 3), False), ("length-negative", 'type="PU" nbobjs="2" kind="5" indexing="os"', c("indexes", "0 1 ", -1), False),
+           ("too-many-indexes", 'type="PU" nbobjs="2" kind="5" indexing="os"', c("indexes", "0 1 ") + c("indexes", "2 ") + c("u64values", "10 20 20 10 "), False),
+           ("too-many-values", 'type="PU" nbobjs="2" kind="5" indexing="os"', okbody + c("u64values", "1 "), False), ("too-few-indexes", 'type="PU" nbobjs="2" kind="5" indexing="os"', c("indexes", "0 ") + c("u64values", "10 20 20 10 "), False),
+           ("too-few-values", 'type="PU" nbobjs="2" kind="5" indexing="os"', c("indexes", "0 1 ") + c("u64values", "10 20 "), False), ("garbage-values", 'type="PU" nbobjs="2" kind="5" indexing="os"', c("indexes", "0 x ") + c("u64values", "10 y "), False),
+           ("pu-gp-indexing", 'type="PU" nbobjs="2" kind="5" indexing="gp"', okbody, True), ("core-os-indexing", 'type="Core" nbobjs="2" kind="5" indexing="os"', okbody, True),
+           ("indexing-other", 'type="PU" nbobjs="2" kind="5" indexing="zz"', okbody, True), ("unknown-objects", 'type="PU" nbobjs="2" kind="5" indexing="os" bogus="1"', c("indexes", "7 9 ") + c("u64values", "10 20 20 10 "), True),
+           ("closed-children", 'type="PU" nbobjs="2" kind="5" indexing="os"', '<indexes length="0"/><u64values length="0"/>', False), ("unclosed-child", 'type="PU" nbobjs="2" kind="5" indexing="os"', '<indexes length="4">0 1 <u64values length="12">10 20 20 10 </u64values>', False)]
+    for nm, attrs, body, lo in bad:
+        add("distances-" + nm, _doc("3.0", "", "", d2(attrs, body)), loads=lo, opts=4 | V)
+    het = lambda attrs, idx, vals="1 2 3 4 ": "<distances2hetero %s>%s%s</distances2hetero>\n" % (attrs, c("indexes", idx), c("u64values", vals))
+    add("hetero-ok", _doc("3.0", "", "", het('nbobjs="2" kind="5" name="h"', "PU:3 NUMANode:2 ")), [r"distances 0 nbobjs=2 kind=21 "], opts=4 | V)
+    add("hetero-unknown-type", _doc("3.0", "", "", het('nbobjs="2" kind="5"', "Frob:3 NUMANode:2 ")), loads=False, opts=4 | V)
+    add("hetero-missing-colon", _doc("3.0", "", "", het('nbobjs="2" kind="5"', "PU3 NUMANode2 ")), loads=False, opts=4 | V)
+    add("hetero-empty", _doc("3.0", "", "", het('nbobjs="2" kind="5"', "")), loads=False, opts=4 | V)
+    add("hetero-with-type-attr", _doc("3.0", "", "", het('nbobjs="2" kind="5" type="PU" indexing="os"', "PU:3 PU:4 ")), loads=None, opts=4 | V)
+    # --- memattr
+    ma = lambda attrs, body: "<memattr %s>%s</memattr>\n" % (attrs, body)
+    mv = lambda attrs: "<memattr_value %s/>" % attrs
+    tgt = 'target_obj_type="NUMANode" target_obj_gp_index="2" '
+    mbad = [("ok-cpuset", 'name="B" flags="5"', mv(tgt + 'value="20" initiator_cpuset="0x3"'), True), ("ok-obj", 'name="F" flags="6"', mv(tgt + 'value="7" initiator_obj_gp_index="3" initiator_obj_type="PU"'), True),
+            ("unknown-attr", 'name="B" flags="5" bogus="1"', "", False), ("no-name", 'flags="5"', mv(tgt + 'value="1" initiator_cpuset="0x1"'), True), ("no-flags", 'name="B"', mv(tgt + 'value="1" initiator_cpuset="0x1"'), True),
+            ("bad-flags", 'name="B" flags="255"', mv(tgt + 'value="1"'), None), ("existing-flags-mismatch", 'name="Bandwidth" flags="1"', mv(tgt + 'value="1"'), True), ("existing-match", 'name="Latency" flags="6"', mv(tgt + 'value="1" initiator_cpuset="0x1"'), True),
+            ("value-unknown-attr", 'name="B" flags="5"', mv(tgt + 'value="1" bogus="1"'), False), ("value-no-target-type", 'name="B" flags="5"', mv('target_obj_gp_index="2" value="1" initiator_cpuset="0x1"'), False),
+            ("value-bad-target-type", 'name="B" flags="5"', mv('target_obj_type="Frob" target_obj_gp_index="2" value="1" initiator_cpuset="0x1"'), False), ("value-no-value", 'name="B" flags="5"', mv(tgt + 'initiator_cpuset="0x1"'), False),
+            ("value-no-gp", 'name="B" flags="5"', mv('target_obj_type="NUMANode" value="1" initiator_cpuset="0x1"'), False), ("value-no-initiator", 'name="B" flags="5"', mv(tgt + 'value="1"'), False),
+            ("value-half-initiator", 'name="B" flags="5"', mv(tgt + 'value="1" initiator_obj_gp_index="3"'), False), ("value-bad-initiator-type", 'name="B" flags="5"', mv(tgt + 'value="1" initiator_obj_gp_index="3" initiator_obj_type="Frob"'), False),
+            ("value-open-close", 'name="B" flags="1"', "<memattr_value " + tgt + 'value="1"></memattr_value>', False), ("info-child", 'name="B" flags="1"', '<info name="a" value="b"/>' + mv(tgt + 'value="1"'), True),
+            ("bad-info-child", 'name="B" flags="1"', '<info bogus="a"/>', False), ("unknown-child", 'name="B" flags="1"', "<bogus/>", False), ("no-memattrs-flag", 'name="B" flags="1"', mv(tgt + 'value="1"'), True)]
+    for nm, attrs, body, lo in mbad:
+        if nm == "value-open-close":     # the libxml backend has no closing tags to check
+            add("memattr-" + nm, _doc("3.0", "", "", ma(attrs, body)), loads=lo, opts=4 | V, backends=(0,))
+            add("memattr-" + nm + "-libxml", _doc("3.0", "", "", ma(attrs, body)), loads=None, opts=4 | V, backends=(1,))
+            continue
+        add("memattr-" + nm, _doc("3.0", "", "", ma(attrs, body)), loads=lo, opts=4 | V, tflags=256 if nm == "no-memattrs-flag" else 0)
+    # --- cpukind
+    ck = [("ok", '<cpukind cpuset="0x1" forced_efficiency="2"><info name="a" value="b"/></cpukind>', True, 0), ("unknown-attr", '<cpukind cpuset="0x1" bogus="1"/>', False, 0), ("no-cpuset", '<cpukind forced_efficiency="1"/>', False, 0),
+          ("unknown-child", '<cpukind cpuset="0x1"><bogus/></cpukind>', False, 0), ("bad-info", '<cpukind cpuset="0x1"><info bogus="1"/></cpukind>', False, 0), ("info-no-value", '<cpukind cpuset="0x1"><info name="a"/></cpukind>', True, 0),
+          ("cpuset-twice", '<cpukind cpuset="0x1" cpuset="0x2"/>', None, 0), ("no-cpukinds-flag", '<cpukind cpuset="0x1"><info name="a" value="b"/></cpukind>', True, 512), ("empty-cpuset", '<cpukind cpuset="0x0"/>', None, 0),
+          ("foreign-cpuset", '<cpukind cpuset="0xf0"/><cpukind cpuset="0xf...f"/>', None, 0)]
+    for nm, body, lo, tf in ck:
+        add("cpukind-" + nm, _doc("3.0", "", "", body), loads=lo, opts=4 | V, tflags=tf, backends=(0, 1) if nm != "cpuset-twice" else (0,))
+    # --- topology-level info
+    add("topology-info-variants", _doc("3.0", "", "", '<info name="a" value="b"/><info name="onlyname"/><info value="onlyvalue"/><info/>'), [r'tinfos 1 "a"="b"'], opts=4 | V)
+    add("topology-info-bogus", _doc("3.0", "", "", '<info name="a" bogus="b"/>'), loads=False, opts=4 | V)
+    # --- what only libxml2 parses (the built-in parser refuses or mis-reads these: either outcome is fine there)
+    lx = _doc("3.0", "", "").replace(b"<object type=\"PU\"", b"<!-- a comment --><?pi x?>text<![CDATA[cdata]]>\n<object type=\"PU\"", 1)
+    add("libxml-node-kinds", lx, loads=None, backends=(1, 0), opts=4 | V)
+    ent = b'<?xml version="1.0"?>\n<!DOCTYPE topology SYSTEM "other.dtd" [<!ENTITY e "zz"><!ATTLIST object extra CDATA "dflt">]>\n' + _doc("3.0", "", "").split(b"\n", 2)[2].replace(b'gp_index="1"', b'gp_index="1" name="&e;" subtype="a&e;b"')
+    add("libxml-entities-wrong-dtd", ent, loads=None, backends=(1, 0), opts=4 | V)
+    add("libxml-no-dtd", _doc("3.0", "", "").split(b"\n", 2)[2], backends=(1, 0), opts=4 | V)
+    add("libxml-namespaced", _doc("3.0", "", "").replace(b"<topology version", b'<topology xmlns:h="urn:x" h:extra="1" version'), loads=None, backends=(1,), opts=4 | V)
+    # --- backend selection through HWLOC_LIBXML
+    add("env-hwloc-libxml", _doc("3.0", "", ""), opts=4 | 128)
+    # --- diff documents
+    dd = lambda body, root="topologydiff", attrs=' refname="r"': DIFF_HDR + ("<%s%s>\n%s</%s>\n" % (root, attrs, body, root)).encode()
+    de = lambda attrs: "<diff %s/>\n" % attrs
+    full = 'type="0" obj_depth="0" obj_index="0" obj_attr_type="%d" obj_attr_index="0" obj_attr_name="N" obj_attr_oldvalue="1" obj_attr_newvalue="2"'
+    dcases = [("ok-all-types", de(full % 0) + de(full % 1) + de(full % 2), True), ("unknown-attr", de(full % 1 + ' bogus="1"'), False), ("missing-generic", de('type="0" obj_attr_type="1" obj_attr_oldvalue="a" obj_attr_newvalue="b"'), True),
+              ("missing-values", de('type="0" obj_depth="0" obj_index="0" obj_attr_type="1"'), True), ("info-without-name", de('type="0" obj_depth="0" obj_index="0" obj_attr_type="2" obj_attr_oldvalue="a" obj_attr_newvalue="b"'), True),
+              ("no-type", de('obj_depth="0"'), True), ("type-too-complex", de('type="1" obj_depth="0" obj_index="0"'), True), ("type-other", de('type="7"'), True), ("open-close", "<diff " + (full % 1) + "></diff>\n", True),
+              ("not-diff-child", "<bogus/>\n", False), ("text-child", "text", None), ("unclosed", "<diff " + (full % 1) + ">", False)]
+    for nm, body, lo in dcases:
+        add("diff-" + nm, dd(body), loads=lo, kind="diff", opts=V)
+    add("diff-root-other", dd("", root="topology", attrs=' version="2.0"'), loads=False, kind="diff", opts=V)
+    add("diff-root-attr-unknown", dd("", attrs=' bogus="1"'), loads=False, kind="diff", opts=V)
+    add("diff-refname-twice", dd("", attrs=' refname="a" refname="b"'), loads=None, kind="diff", opts=V, backends=(0,))
+    add("diff-no-dtd", dd(de(full % 1)).split(b"\n", 2)[2], kind="diff", opts=V)
+    add("diff-wrong-dtd", dd(de(full % 1)).replace(b"hwloc2-diff.dtd", b"other.dtd"), kind="diff", opts=V)
+    add("diff-env-hwloc-libxml", dd(de(full % 1)), kind="diff", opts=128)
+    # --- files: paths that are not plain readable files of known size
+    for nm, path in (("missing", "/nonexistent/dir/x.xml"), ("directory", "/tmp"), ("proc-file", "/proc/version"), ("dev-null", "/dev/null"), ("stdin-dash", "-"), ("empty-name", "")):
+        add("path-" + nm, path + "\n", loads=False, method="path", opts=4 | V)
+        add("diffpath-" + nm, path + "\n", loads=False, method="path", kind="diff", opts=V)
+    return F
